@@ -43,8 +43,9 @@
 (* Values.  Redshifts are integers in 1/100, scales and rweight/resolution *)
 (* opaque integer tokens, cosmologies tokens (see below); floats never     *)
 (* enter: the abstract binning [method, nb, zmin, zmax, edges, closed,     *)
-(* gen] names the FORMULA of the edges (gen = cosmology the comoving edges *)
-(* are generated with), the driver evaluates it.                           *)
+(* gen, fuzz] names the FORMULA of the edges (gen = cosmology the comoving *)
+(* edges are generated with; fuzz = 0 iff edges[0] / edges[-1] are exactly *)
+(* zmin / zmax), the driver evaluates it.                                  *)
 (*   NONE = python None, NOTSET / NS / NSQ = yaw.options.NotSet.           *)
 (*   cosmology tokens: "omitted" (argument not passed), "none" (None),     *)
 (*   "Planck15" "WMAP9" (named astropy objects), "anon" (unnamed FLRW      *)
@@ -69,6 +70,15 @@
 (*                              raises CosmologyError                      *)
 (*   "ModifyEdgesNoneIsCustom"  modify(edges=None) is taken as a request   *)
 (*                              for custom bins                            *)
+(*   "ComovingCustomFloats"     RedshiftBinningFactory.comoving mixes the  *)
+(*                              plain floats of a CustomCosmology with     *)
+(*                              Quantities (UnitConversionError)           *)
+(*   "InexactEndPoints"         logspace / comoving edges reproduce zmin   *)
+(*                              and zmax only approximately; modify and    *)
+(*                              from_dict regenerate the bins from these   *)
+(*                              inexact end points (binning.fuzz counts    *)
+(*                              the inexact generations: 0 = the edges span*)
+(*                              exactly [zmin, zmax])                      *)
 (***************************************************************************)
 EXTENDS Integers, Sequences, FiniteSets, TLC
 
@@ -117,7 +127,7 @@ Increasing(e) == \A i \in 1..(Len(e) - 1) : e[i] < e[i + 1]
 
 NoScales == [rmin |-> <<>>, rmax |-> <<>>, unit |-> "-", rw |-> NONE, res |-> NONE]
 NoBinning == [method |-> "-", nb |-> NONE, zmin |-> NONE, zmax |-> NONE,
-              edges |-> <<>>, closed |-> "-", gen |-> "-"]
+              edges |-> <<>>, closed |-> "-", gen |-> "-", fuzz |-> 0]
 NoObj == [ok |-> FALSE, scales |-> NoScales, binning |-> NoBinning,
           cosmo |-> "-", workers |-> NONE]
 NoParams == [rmin |-> <<>>, rmax |-> <<>>, unit |-> "-", rw |-> NONE, res |-> NONE,
@@ -238,10 +248,11 @@ Declared(p) ==
         IF HasZ(p)
         THEN [method |-> p.method, nb |-> p.nb, zmin |-> p.zmin, zmax |-> p.zmax,
               edges |-> <<>>, closed |-> p.closed,
-              gen |-> IF p.method = "comoving" THEN CosmoIdOf(p.cosmo) ELSE "-"]
+              gen |-> IF p.method = "comoving" THEN CosmoIdOf(p.cosmo) ELSE "-",
+              fuzz |-> 0]                        \* spanning exactly [zmin, zmax]
         ELSE [method |-> "custom", nb |-> Len(p.edges) - 1, zmin |-> p.edges[1],
               zmax |-> p.edges[Len(p.edges)], edges |-> p.edges, closed |-> p.closed,
-              gen |-> "-"],
+              gen |-> "-", fuzz |-> 0],
      cosmo |-> CosmoIdOf(p.cosmo),
      workers |-> p.workers]
 
@@ -336,7 +347,12 @@ ScalesModify(s, d) ==
 FactoryCosmo(carg) == IF carg \in {"none", NS} THEN DefaultCosmo ELSE carg
 
 (* config/binning.py: BinningConfig.create *)
-BinningCreate(zmin, zmax, nb, method, edges, closed, carg) ==
+(* fz = inexactness of the zmin/zmax handed in (0: the user's own values)  *)
+OutFuzz(method, fz) ==
+    IF "InexactEndPoints" \in Deviations /\ method \in {"comoving", "logspace"}
+    THEN (IF fz >= 1 THEN 2 ELSE 1) ELSE fz
+
+BinningCreate(zmin, zmax, nb, method, edges, closed, carg, fz) ==
     LET auto == zmin # NONE /\ zmax # NONE
         cust == edges # <<>>
     IN IF ~auto /\ ~cust THEN BRes("raises", "ConfigError", NoBinning)
@@ -347,20 +363,24 @@ BinningCreate(zmin, zmax, nb, method, edges, closed, carg) ==
                  THEN BRes("raises", "AttributeError", NoBinning)      \* a str has no comoving_distance
             ELSE IF nb = NONE THEN BRes("raises", "TypeError", NoBinning)
             ELSE IF nb < 1 \/ zmin >= zmax THEN BRes("raises", "ValueError", NoBinning)
+            ELSE IF method = "comoving" /\ FactoryCosmo(carg) = "custom"
+                    /\ "ComovingCustomFloats" \in Deviations
+                 THEN BRes("raises", "UnitConversionError", NoBinning)
             ELSE IF method = "comoving" /\ zmin = 0 /\ "ComovingZeroZmin" \in Deviations
                  THEN BRes("raises", "CosmologyError", NoBinning)
             ELSE BRes("ok", "-", [method |-> method, nb |-> nb, zmin |-> zmin, zmax |-> zmax,
                                   edges |-> <<>>, closed |-> closed,
-                                  gen |-> IF method = "comoving" THEN FactoryCosmo(carg) ELSE "-"])
+                                  gen |-> IF method = "comoving" THEN FactoryCosmo(carg) ELSE "-",
+                                  fuzz |-> OutFuzz(method, fz)])
        ELSE IF Len(edges) < 2 \/ ~Increasing(edges) THEN BRes("raises", "ValueError", NoBinning)
        ELSE BRes("ok", "-", [method |-> "custom", nb |-> Len(edges) - 1, zmin |-> edges[1],
                              zmax |-> edges[Len(edges)], edges |-> edges, closed |-> closed,
-                             gen |-> "-"])
+                             gen |-> "-", fuzz |-> 0])
 
 (* a python dict for BinningConfig.from_dict: fields + the set of keys present *)
-BDict(keys, zmin, zmax, nb, method, edges, closed) ==
+BDict(keys, zmin, zmax, nb, method, edges, closed, fz) ==
     [keys |-> keys, zmin |-> zmin, zmax |-> zmax, nb |-> nb, method |-> method,
-     edges |-> edges, closed |-> closed]
+     edges |-> edges, closed |-> closed, fz |-> fz]
 
 (* config/binning.py: BinningConfig.from_dict *)
 BinningFromDict(dd, carg) ==
@@ -374,22 +394,23 @@ BinningFromDict(dd, carg) ==
             THEN BRes("raises", "TypeError", NoBinning)
             ELSE BRes("ok", "-", [method |-> "custom", nb |-> Len(dd.edges) - 1,
                                   zmin |-> dd.edges[1], zmax |-> dd.edges[Len(dd.edges)],
-                                  edges |-> dd.edges, closed |-> dd.closed, gen |-> "-"])
+                                  edges |-> dd.edges, closed |-> dd.closed, gen |-> "-",
+                                  fuzz |-> 0])
        ELSE BinningCreate(IF "zmin" \in dd.keys THEN dd.zmin ELSE NONE,
                           IF "zmax" \in dd.keys THEN dd.zmax ELSE NONE,
                           IF "nb" \in dd.keys THEN dd.nb ELSE 30,
                           IF "method" \in dd.keys THEN dd.method ELSE "linear",
                           IF "edges" \in dd.keys THEN dd.edges ELSE <<>>,
                           IF "closed" \in dd.keys THEN dd.closed ELSE "right",
-                          carg)
+                          carg, dd.fz)
 
 (* config/binning.py: BinningConfig.to_dict *)
 BinningToDict(b) ==
     IF b.method = "custom"
     THEN BDict({"method", "zmin", "zmax", "nb", "edges", "closed"},
-               NONE, NONE, NONE, "custom", b.edges, b.closed)
-    ELSE BDict({"method", "zmin", "zmax", "nb", "edges", "closed"},
-               b.zmin, b.zmax, b.nb, b.method, <<>>, b.closed)
+               NONE, NONE, NONE, "custom", b.edges, b.closed, 0)
+    ELSE BDict({"method", "zmin", "zmax", "nb", "edges", "closed"},      \* zmin = edges[0] ...
+               b.zmin, b.zmax, b.nb, b.method, <<>>, b.closed, b.fuzz)
 
 (* config/binning.py: BinningConfig.modify *)
 BinningModify(b, d, carg) ==
@@ -397,6 +418,7 @@ BinningModify(b, d, carg) ==
                       /\ (d.edges # <<>> \/ "ModifyEdgesNoneIsCustom" \in Deviations)
         closed == IF d.closed = NS THEN b.closed ELSE d.closed
         noGen == d.zmin = NOTSET /\ d.zmax = NOTSET /\ d.nb = NOTSET /\ d.method = NS
+        fz == IF d.zmin # NOTSET /\ d.zmax # NOTSET THEN 0 ELSE b.fuzz   \* self.zmin = edges[0]
     IN IF closed \notin KnownCloseds THEN BRes("raises", "ValueError", NoBinning)
        ELSE IF ~edgesGiven THEN
             IF d.method = "custom" THEN BRes("raises", "ConfigError", NoBinning)
@@ -404,15 +426,15 @@ BinningModify(b, d, carg) ==
                  THEN BRes("raises", "ValueError", NoBinning)
             ELSE IF b.method = "custom" /\ noGen /\ "CustomModifyDropsEdges" \notin Deviations
                  THEN BinningFromDict(BDict({"edges", "method", "closed"}, NONE, NONE, NONE,
-                                            "custom", b.edges, closed), carg)
+                                            "custom", b.edges, closed, 0), carg)
             ELSE BinningFromDict(BDict({"zmin", "zmax", "nb", "method", "closed"},
                                        IF d.zmin = NOTSET THEN b.zmin ELSE d.zmin,
                                        IF d.zmax = NOTSET THEN b.zmax ELSE d.zmax,
                                        IF d.nb = NOTSET THEN b.nb ELSE d.nb,
                                        IF d.method = NS THEN b.method ELSE d.method,
-                                       <<>>, closed), carg)
+                                       <<>>, closed, fz), carg)
        ELSE BinningFromDict(BDict({"edges", "method", "closed"}, NONE, NONE, NONE,
-                                  "custom", d.edges, closed), carg)
+                                  "custom", d.edges, closed, 0), carg)
 
 (* Configuration.__init__: parse_cosmology once more, int(max_workers) *)
 Construct(s, b, cid, workers) ==
@@ -487,7 +509,7 @@ CreateScales ==
 CreateBinning ==
     /\ pc = "c_binning"
     /\ LET p == tmp.p
-           rb == BinningCreate(p.zmin, p.zmax, p.nb, p.method, p.edges, p.closed, tmp.rc.id)
+           rb == BinningCreate(p.zmin, p.zmax, p.nb, p.method, p.edges, p.closed, tmp.rc.id, 0)
        IN /\ tmp' = [tmp EXCEPT !.rb = rb, !.carg = tmp.rc.id, !.step = "binning",
                                 !.err = IF rb.st = "ok" THEN "-" ELSE rb.err]
           /\ pc' = IF rb.st = "ok" THEN "c_construct" ELSE "raise"
@@ -574,10 +596,18 @@ NewDecl == IF tmp.op = "create"
            ELSE (IF MergeVerdict(decl, tmp.d) = "accept"
                  THEN ParamsOf(Declared(Merge(decl, tmp.d).p)) ELSE ParamsOf(tmp.new))
 
+(* Configuration.create as one function (the four Create* steps)          *)
+OpCreate(p) ==
+    LET rc == ParseCosmology(IF p.cosmo = "omitted" THEN NameOf(DefaultCosmo) ELSE p.cosmo)
+        rs == ScalesCreate(p.rmin, p.rmax, p.unit, p.rw, p.res)
+        rb == BinningCreate(p.zmin, p.zmax, p.nb, p.method, p.edges, p.closed, rc.id, 0)
+    IN IF rc.st = "ok" /\ rs.st = "ok" /\ rb.st = "ok"
+       THEN Construct(rs.v, rb.v, rc.id, p.workers).v ELSE NoObj
+
 (* twin = a configuration freshly created from the same (declared) parameters *)
 ObserveEq ==
     /\ pc = "o_eq"
-    /\ LET twin == Declared(NewDecl)
+    /\ LET twin == OpCreate(NewDecl)
            n == tmp.new
        IN tmp' = [tmp EXCEPT !.obs.eqb = BinningEq(n.binning, twin.binning),
                              !.obs.eqs = ScalesEq(n.scales, twin.scales),
@@ -660,6 +690,7 @@ WellFormed ==
         /\ cur.binning.method = "custom" =>
               /\ Len(cur.binning.edges) = cur.binning.nb + 1 /\ Increasing(cur.binning.edges)
         /\ cur.binning.gen = (IF cur.binning.method = "comoving" THEN cur.cosmo ELSE "-")
+        /\ cur.binning.fuzz = 0                          \* spanning exactly [zmin, zmax]
         /\ cur.scales.unit \in KnownUnits
         /\ Len(cur.scales.rmin) = Len(cur.scales.rmax)
         /\ \A i \in 1..Len(cur.scales.rmin) : cur.scales.rmin[i] < cur.scales.rmax[i]
@@ -716,9 +747,9 @@ CompactObj(o) ==
     IF ~o.ok THEN <<>> ELSE
     <<o.scales.rmin, o.scales.rmax, o.scales.unit, o.scales.rw, o.scales.res,
       o.binning.method, o.binning.nb, o.binning.zmin, o.binning.zmax, o.binning.edges,
-      o.binning.closed, o.binning.gen, o.cosmo, o.workers>>
+      o.binning.closed, o.binning.gen, o.binning.fuzz, o.cosmo, o.workers>>
 
-CompactBinning(b) == <<b.method, b.nb, b.zmin, b.zmax, b.edges, b.closed, b.gen>>
+CompactBinning(b) == <<b.method, b.nb, b.zmin, b.zmax, b.edges, b.closed, b.gen, b.fuzz>>
 CompactScales(s) == <<s.rmin, s.rmax, s.unit, s.rw, s.res>>
 
 CaseLine ==
@@ -732,5 +763,6 @@ CaseLine ==
       <<last.obs.eqb, last.obs.eqs, last.obs.eqc, last.obs.eq, last.obs.eqprev>>,
       <<last.obs.todict, last.obs.rt, last.obs.rterr>> >>
 
-PrintCases == AtResult => PrintT(CaseLine)
+(* one physical line per case: lines of different TLC workers may interleave *)
+PrintCases == AtResult => PrintT(ToString(CaseLine))
 =============================================================================
